@@ -23,8 +23,18 @@ package dsindex
 //@   ensures result == childKey(k, s)
 //@ func ext path.Base
 //@   ensures result == pathBase(path)
+// abstract persistent state shared with dspinner (C22/C23): number of successful mutations and
+// whether some storage operation failed; single mutations apply completely or fail without effect
+//@ ghost muts() Int
+//@ ghost faulted() bool
 //@ func iface github.com/ipfs/go-datastore.Datastore.Put
+//@   modifies muts(), faulted()
+//@   ensures err == nil ==> muts() == old(muts()) + 1 && faulted() == old(faulted())
+//@   ensures err != nil ==> muts() == old(muts()) && faulted()
 //@ func iface github.com/ipfs/go-datastore.Datastore.Delete
+//@   modifies muts(), faulted()
+//@   ensures err == nil ==> muts() == old(muts()) + 1 && faulted() == old(faulted())
+//@   ensures err != nil ==> muts() == old(muts()) && faulted()
 //@ func iface github.com/ipfs/go-datastore.Datastore.Has
 //@ macro ixKey(k, v) = childKey(newKey(enc(k)), enc(v))
 
